@@ -86,6 +86,8 @@ def check(formulas, timeout_ms=None, want_model=False, fallback=True,
           cross=False):
     """Satisfiability of the conjunction of `formulas`."""
     timeout_ms = timeout_ms or QUICK_TIMEOUT_MS
+    if os.environ.get("PYVC_NO_FALLBACK"):
+        fallback = False
     STATS['queries'] += 1
     s = z3.Solver()
     s.set('timeout', timeout_ms)
@@ -113,15 +115,19 @@ def check(formulas, timeout_ms=None, want_model=False, fallback=True,
                 return 'disagree', None, 'z3 sat / cvc5 unsat'
         return 'sat', (s.model() if want_model else None), 'z3'
     STATS['z3_unknown'] += 1
+    if os.environ.get('PYVC_DUMP') and want_model:
+        n = STATS['z3_unknown']
+        with open(os.path.join(os.environ['PYVC_DUMP'], 'unknown_%d_%d.smt2' % (os.getpid(), n)), 'w') as fh:
+            fh.write(_to_smt2(formulas))
     if not fallback:
         return 'unknown', None, 'z3:' + s.reason_unknown()
-    v = cvc5_check(formulas, timeout_ms)
+    v = cvc5_check(formulas, min(timeout_ms, 5000))
     if v == 'unsat':
         return 'unsat', None, 'cvc5'
     if v == 'sat':
-        # no model from the CLI: retry z3 with a larger budget for a model
         return 'sat', None, 'cvc5'
-    v = z3cli_check(formulas, timeout_ms)
-    if v in ('sat', 'unsat'):
-        return v, None, 'z3-4.8.12'
-    return 'unknown', None, 'all back ends unknown'
+    if os.environ.get('PYVC_Z3CLI'):
+        v = z3cli_check(formulas, timeout_ms)
+        if v in ('sat', 'unsat'):
+            return v, None, 'z3-4.8.12'
+    return 'unknown', None, 'z3 and cvc5 unknown'
